@@ -65,7 +65,7 @@ def recording_callable(label: str, nout: int | None, yvals: list[str] | None):
         if nout is None:        # the shared callable: its first argument says how many values to yield (0: return a plain value)
             return ("V", term) if a0 == 0 else (("V", f"{term}#{i}") for i in range(a0))
         if nout == 1:
-            return ("V", term)
+            return ("V", term) if yvals[0] == "t" else L.LITERALS[yvals[0]]
         return (("V", f"{term}#{i}") if y == "t" else L.LITERALS[y] for i, y in enumerate(yvals))
 
     f.__name__ = f.__qualname__ = label
@@ -109,8 +109,10 @@ def item(a: dict):
         else Node.input_name(a["i"] - 1)
 
 
-def run_job(job, order: list[str]):
-    """Run every task of the job through the real runner, one worker (one Memory) per task; returns what was observed."""
+def run_job(job, order: list[str], place: str = "each"):
+    """Run every task of the job through the real runner (execute_sequence -> run -> Memory.provide / handle), every worker
+    keeping ONE real Memory for all its tasks as the worker loop does.  place: "each" task on its own worker, all on "one"
+    worker in sequence, or the first task on one worker and all "consumers" together on another."""
     # ---- running: one worker (one Memory) per task, so that every input comes through shm + serde
     shm = DictShm()
     out: list = []
@@ -121,14 +123,19 @@ def run_job(job, order: list[str]):
     calls = []          # a call is attributed to the task during whose run it was observed
     try:
         psrc = param_source(job.edges)
+        memories: dict[str, Memory] = {}
         for k, name in enumerate(order):     # a topological order
-            w = WorkerId("h", f"w{k}")
+            wname = f"w{k}" if place == "each" else "w0" if place == "one" or k == 0 else "w1"
+            w = WorkerId("h", wname)
+            if wname not in memories:
+                memories[wname] = Memory("cb", w).__enter__()
             rc = EP.RunnerContext(workerId=w, job=job, callback="cb", param_source=psrc)
             publish = {DatasetId(name, o) for o in job.tasks[name].definition.output_schema}
-            with Memory("cb", w) as mem:
-                EP.execute_sequence(TaskSequence(worker=w, tasks=[name], publish=publish), mem, PackagesEnv(), rc)
+            EP.execute_sequence(TaskSequence(worker=w, tasks=[name], publish=publish), memories[wname], PackagesEnv(), rc)
             calls += [[name, t] for _, t in CALLS]
             del CALLS[:]
+        for mem in memories.values():
+            mem.__exit__(None, None, None)
         # ---- what was published, read back through the real Memory.provide
         datasets = []
         with Memory("cb", WorkerId("h", "reader")) as mem:
@@ -220,6 +227,6 @@ def observe(case: dict) -> dict:
               "static_kw": [[k, render(v)] for k, v in t.static_input_kw.items()]} for name, t in job.tasks.items()]
     edges = [[e.source.task, e.source.output, e.sink_task, -1 if e.sink_input_ps is None else e.sink_input_ps,
               "" if e.sink_input_kw is None else e.sink_input_kw] for e in job.edges]
-    calls, failures, details, datasets = run_job(job, [n.name for n in nodes])
+    calls, failures, details, datasets = run_job(job, [n.name for n in nodes], case.get("place", "each"))
     return {"names": [n.name for n in nodes], "declared": declared, "coords": coords, "tasks": tasks, "edges": edges,
             "calls": calls, "failures": failures, "failure_details": details, "datasets": datasets}
